@@ -3,6 +3,7 @@
     Gen/GenData.v carries the _nowiki_map of the current source). *)
 From Coq Require Import List NArith Bool.
 From WTP Require Import Base.Str Model.Expand Model.Nowiki Gen.GenData Proofs.NowikiProofs Proofs.ExpandProofs.
+From WTP Require Import Model.Preprocess Proofs.PreprocessProofs.
 Import ListNotations.
 Open Scope N_scope.
 
@@ -36,3 +37,15 @@ Theorem c15_finalize_prints_quoted :
     (match c with [] => s_nowiki_empty | _ => nowiki_quote nwmap c end) ++ finalize (S fuel) nwmap rest.
 Proof. exact finalize_nw. Qed.
 Print Assumptions c15_finalize_prints_quoted.
+
+
+(* The preprocessing pass (Model/Preprocess.v = Wtp.preprocess_text), on EVERY arrangement of plain text, closed
+   comments, nowiki elements and <nowiki/> tags (texts free of angle brackets, comment bodies free of '>', no two
+   plain pieces in a row): nowiki content is set aside exactly as written - braces, brackets, bars, quotes,
+   comment openers and all - and is never looked at again; every closed comment is deleted together with one line
+   break directly before it; nothing else changes. *)
+Theorem c15_preprocess_sets_nowiki_aside_and_deletes_comments :
+  forall segs, Forall PreprocessProofs.seg_ok segs -> no_adjacent_plain segs ->
+    preprocess (render_ps segs) = PreprocessProofs.spec segs.
+Proof. exact preprocess_spec. Qed.
+Print Assumptions c15_preprocess_sets_nowiki_aside_and_deletes_comments.
